@@ -107,6 +107,13 @@ CORPUS_SETS = [
         SVG_HEAD + '<path d="M20,44 L65,44 L65,64 L35,64 L35,54 L20,54 Z" fill="#1565c0"/>'
         '<path d="M100,20 L100,50 L80,50 L80,30 L70,30 L70,20 Z" fill="#ff8f00"/></svg>',
     ]),
+    # a tiny copy of a big shape carrying a glyph-wide gradient: the compensated gradient does not fit int16 and the
+    # fallback (a wrapping transform) must still paint the same colours
+    ("tiny-copy-with-gradient", ["glyf_colr_1", "picosvg"], 0.1, [
+        '<svg xmlns="http://www.w3.org/2000/svg" viewBox="0 0 100 100"><defs><linearGradient id="g" gradientUnits="userSpaceOnUse" x1="0" y1="0" x2="100" y2="20">'
+        '<stop offset="0" stop-color="#ff0000"/><stop offset="1" stop-color="#0000ff"/></linearGradient></defs>'
+        '<path d="M10,90 L90,90 L50,10 Z" fill="#00aa00"/><path d="M5,95 L7,95 L6,93 Z" fill="url(#g)"/></svg>',
+    ]),
     # reused shapes that carry gradients with their own (non-uniform) gradientTransform, moved and scaled
     ("gradient-on-reused-shape", ["glyf_colr_1", "picosvg"], 0.1, [
         SVG_HEAD + '<defs><radialGradient id="a" gradientUnits="userSpaceOnUse" cx="40" cy="70" r="14" gradientTransform="matrix(1 0 0 0.5 0 35)">'
@@ -152,13 +159,13 @@ def glyph_picture(font, g):
     return picture.otsvg_picture(covering[0][0], gid)
 
 
-def check_pair(report, tag, fmt, tol, over, srcs):
-    """-> False if a failure was reported"""
+def check_pair(report, tag, fmt, tol, over, srcs, via=None):
+    """-> False if a failure was reported.  via: None = in process, "flag"/"file" = the real command line"""
     case = dict(kind="e2e-pair", format=fmt, reuse_tolerance=tol, config={k: str(v) for k, v in over.items()}, sources=[s[1] for s in srcs])
     outcomes = {}
     for which, ov in (("on", over), ("off", dict(over, reuse_tolerance=-1.0))):
         try:
-            outcomes[which] = build.build_inprocess(ov, srcs)
+            outcomes[which] = build.build_cli(ov, srcs, via) if via else build.build_inprocess(ov, srcs)
         except Exception as ex:
             outcomes[which] = ex
     errs = {k: v for k, v in outcomes.items() if isinstance(v, Exception)}
@@ -209,6 +216,12 @@ def run_pairs(report, n, rng):
             for metrics in (dict(upem=1024, ascender=896, descender=-128, width=1024), dict()):
                 if not check_pair(report, f"{name}_{fmt}", fmt, tol, dict(color_format=fmt, reuse_tolerance=tol, **metrics), srcs):
                     return
+    # the same pair through the real command line: "reuse off" given by flag and by file must build, and match
+    docs, srcs = e2e.gen_sources(rng, n=3, stress=True)
+    for fmt, via in (("glyf_colr_1", "flag"), ("picosvg", "file")):
+        report.hist("pairs.kind", "command line, options by " + via)
+        if not check_pair(report, f"cli_{fmt}", fmt, 0.1, dict(color_format=fmt, reuse_tolerance=0.1, upem=1000, ascender=800, descender=-200, width=1000), srcs, via=via):
+            return
     formats = ["glyf_colr_1", "glyf_colr_0", "glyf_colr_1", "cff_colr_1", "picosvg"]
     for i in range(n):
         fmt = formats[i % len(formats)]
